@@ -203,6 +203,8 @@ pub struct Solo {
     pub w: Watch,
     /// received and not yet answered by the application: (id, what is owed)
     pub inbox: Vec<(u32, InNeed)>,
+    /// ids the application obtained (acquire/register) and has not yet handed to a send
+    pub owned: std::collections::BTreeSet<u32>,
     pub chunk: u16,
     pub now_ms: u64,
     pub deadline: [Option<u64>; 3],
@@ -225,6 +227,7 @@ impl Solo {
             cfg,
             w,
             inbox: vec![],
+            owned: Default::default(),
             chunk: 0,
             now_ms: 0,
             deadline: [None; 3],
@@ -240,15 +243,32 @@ impl Solo {
 
     /// ids the application holds without having handed them to an accepted send
     pub fn held(&self) -> Vec<u32> {
-        let m = &self.w.m;
-        m.ids.iter().cloned().filter(|i| !m.out.iter().any(|o| o.id == *i) && !m.subs.contains(i) && !m.unsubs.contains(i) && !m.store.iter().any(|s| s.id == *i)).collect()
+        self.owned.iter().cloned().collect()
     }
 
     fn take_id(&mut self) -> Option<u32> {
-        match self.held().last().cloned() {
+        match self.owned.iter().next_back().cloned() {
             Some(i) => Some(i),
-            None => self.w.acquire(),
+            None => {
+                let i = self.w.acquire()?;
+                self.owned.insert(i);
+                Some(i)
+            }
         }
+    }
+
+    /// send a packet that carries an application-owned id: the id passes to the library
+    /// unless the send is refused without the id being released
+    fn app_send_with_id(&mut self, p: &Pkt) -> Vec<Ev> {
+        let id = p.id.unwrap();
+        self.owned.remove(&id);
+        let evs = self.app_send(p);
+        let refused = evs.iter().any(|e| e.is_error());
+        let released = evs.iter().any(|e| matches!(e, Ev::Released(x) if *x == id));
+        if refused && !released && !self.w.failed() {
+            self.owned.insert(id);
+        }
+        evs
     }
 
     /// the peer can transmit: a transport exists and E has not asked to close it
@@ -271,6 +291,9 @@ impl Solo {
                 Ev::TimerReset(k, ms) => self.deadline[k.ix()] = Some(self.now_ms + ms),
                 Ev::TimerCancel(k) => self.deadline[k.ix()] = None,
                 Ev::Recv { pkt } => self.on_delivered(pkt),
+                Ev::Released(id) => {
+                    self.owned.remove(id);
+                }
                 _ => {}
             }
         }
@@ -358,7 +381,7 @@ impl Solo {
         self.inbox.clear();
         // ids of exchanges that got their PUBREC but whose PUBREL was never sent: in a
         // non-persistent session the application gives them back itself
-        if !self.w.m.persistent {
+        if !self.w.m.persistent && !self.w.lenient {
             let stale: Vec<u32> = self.w.m.out.iter().filter(|o| o.stage == Stage::GotPubrec).map(|o| o.id).collect();
             for id in stale {
                 if self.w.m.ids.contains(&id) {
@@ -383,14 +406,26 @@ impl Solo {
                     return;
                 }
                 let p = self.cfg.connect_pkt(*clean);
+                let fresh = self.w.m.st == St::Disc;
+                let before = self.w.step;
                 if self.cfg.as_client {
-                    self.app_send(&p);
+                    let evs = self.app_send(&p);
+                    if self.w.lenient && fresh && !self.w.failed() && !(evs.iter().any(|e| matches!(e, Ev::Send { pkt, .. } if pkt.kind == CONNECT)) && !evs.iter().any(|e| e.is_error())) {
+                        self.w.flag(&["C05", "C10"], "new-connection-refused-after-close", format!("send(CONNECT) on a closed connection object: {}", evs_short(&evs)));
+                    }
                 } else {
                     self.peer_send(&p);
+                    if self.w.lenient && fresh && !self.w.failed() && self.w.step > before && self.w.m.st != St::Connecting {
+                        self.w.flag(&["C05", "C10"], "new-connection-refused-after-close", "a valid CONNECT on a closed connection object was not accepted");
+                    }
+                }
+                if self.w.lenient && fresh && !self.w.failed() {
+                    self.w.stats.hit("c05_reconnect_after_adversary");
                 }
                 self.connects += 1;
                 if *clean {
                     self.peer_q2.clear();
+                    self.owned.clear();
                 }
             }
             Op::Connack { sp, rc } => {
@@ -410,6 +445,7 @@ impl Solo {
                 }
                 if was == St::Connecting && self.w.m.st == St::Connected && !p.sp {
                     self.peer_q2.clear();
+                    self.owned.clear();
                 }
             }
             Op::Pub { qos, topic, alias, pad, fail } => {
@@ -433,7 +469,7 @@ impl Solo {
                     let Some(id) = self.take_id() else { return };
                     p.id = Some(id);
                 }
-                let evs = self.app_send(&p);
+                let evs = if p.id.is_some() { self.app_send_with_id(&p) } else { self.app_send(&p) };
                 if *fail {
                     // the transport rejects the write: honour release_packet_id_if_send_error, then the transport is dead
                     let mut any = false;
@@ -459,7 +495,7 @@ impl Solo {
                 let Some(id) = self.take_id() else { return };
                 let mut p = Pkt::new(v, if *op == Op::Sub { SUBSCRIBE } else { UNSUBSCRIBE }).with_id(id);
                 p.filters = vec![("t/#".into(), if *op == Op::Sub { 1 } else { 0 })];
-                self.app_send(&p);
+                self.app_send_with_id(&p);
             }
             Op::Ping => {
                 self.app_send(&Pkt::new(v, PINGREQ));
@@ -534,6 +570,9 @@ impl Solo {
                 self.peer_send(&p);
             }
             Op::AppPubrel { nth } => {
+                if self.w.lenient {
+                    return;
+                }
                 let got: Vec<u32> = self.w.m.out.iter().filter(|o| o.stage == Stage::GotPubrec).map(|o| o.id).collect();
                 if got.is_empty() {
                     return;
@@ -670,10 +709,14 @@ impl Solo {
                 self.handle(&evs);
             }
             Op::Acquire => {
-                self.w.acquire();
+                if let Some(i) = self.w.acquire() {
+                    self.owned.insert(i);
+                }
             }
             Op::Register { id } => {
-                self.w.register(*id);
+                if self.w.register(*id) {
+                    self.owned.insert(*id);
+                }
             }
             Op::Release { nth } => {
                 let held = self.held();
@@ -743,13 +786,17 @@ impl Solo {
                     self.do_close();
                 }
                 self.w.crash_restore(ExportMangle::None);
+                self.owned.clear();
                 self.inbox.clear();
                 self.fault("crash_restart");
             }
             Op::PeerRaw { bytes } => {
-                if self.w.m.st == St::Disc && !self.cfg.lenient {
+                if !self.peer_up() {
                     return;
                 }
+                // adversarial traffic: from here on only the model-free oracles decide
+                self.w.lenient = true;
+                self.fault("adversarial_frame");
                 self.peer_bytes(bytes);
             }
             Op::SetChunk { n } => {
@@ -763,7 +810,7 @@ impl Solo {
     /// within a step bound; afterwards nothing may be left in use.
     pub fn drain(&mut self) {
         use wire::*;
-        if self.cfg.lenient {
+        if self.cfg.lenient || self.w.lenient {
             return;
         }
         self.chunk = 0;
@@ -1092,4 +1139,185 @@ pub fn gen_cfg(r: &mut Rng, faults: bool) -> Cfg {
         c.f_chunk = r.chance(1, 2);
     }
     c
+}
+
+// ------------------------------------------------------------------ adversarial peer
+
+/// A frame from an adversarial peer: a packet of any kind with boundary / forbidden field
+/// values written by the raw encoder, optionally mutated at byte level, or plain garbage.
+pub fn gen_adversarial(s: &Solo, r: &mut Rng) -> Vec<u8> {
+    use wire::*;
+    let v = s.cfg.wire_v;
+    let idw = s.w.idw;
+    let maxid = if idw == 2 { 65535u32 } else { u32::MAX };
+    if r.chance(1, 12) {
+        // raw garbage
+        let n = r.range(1, 24) as usize;
+        return (0..n).map(|_| *r.pick(&[0u8, 0x80, 0xff, 0x10, 0x20, 0x30, 0x32, 0x34, 0x40, 0x62, 0x7f, 0x81, 0xe0, 0xf0, 1, 2, 4])).collect();
+    }
+    let inflight: Vec<u32> = s.w.m.ids.iter().cloned().take(3).collect();
+    let mut ids = vec![0u32, 1, 2, maxid];
+    ids.extend(inflight);
+    let kind = if r.chance(1, 20) { 0 } else { r.range(1, 15) as u8 };
+    let mut p = Pkt::new(v, kind);
+    match kind {
+        CONNECT => {
+            p.client_id = r.pick(&["", "cid", "x"]).to_string();
+            p.clean = r.chance(1, 2);
+            p.keep_alive = *r.pick(&[0u16, 1, 65535]);
+            p.level = *r.pick(&[0u8, 0, 0, 3, 4, 5, 6]);
+            if v == 5 {
+                for _ in 0..r.below(4) {
+                    p.props.push(match r.below(6) {
+                        0 => Prop::TopicAliasMax(*r.pick(&[0u16, 1, 65535])),
+                        1 => Prop::ReceiveMax(*r.pick(&[0u16, 1, 65535])),
+                        2 => Prop::MaxPacketSize(*r.pick(&[0u32, 1, 5, 20, u32::MAX])),
+                        3 => Prop::SessionExpiry(*r.pick(&[0u32, 1, u32::MAX])),
+                        4 => Prop::User("k".into(), "v".into()),
+                        _ => Prop::ServerKeepAlive(3),
+                    });
+                }
+            }
+        }
+        CONNACK => {
+            p.sp = r.chance(1, 2);
+            p.rc = Some(*r.pick(&[0u8, 0, 1, 5, 0x80, 0x87, 0xff]));
+            if v == 5 {
+                for _ in 0..r.below(4) {
+                    p.props.push(match r.below(6) {
+                        0 => Prop::TopicAliasMax(*r.pick(&[0u16, 1, 65535])),
+                        1 => Prop::ReceiveMax(*r.pick(&[0u16, 1, 65535])),
+                        2 => Prop::MaxPacketSize(*r.pick(&[0u32, 1, 5, 20, u32::MAX])),
+                        3 => Prop::SessionExpiry(*r.pick(&[0u32, 1, u32::MAX])),
+                        4 => Prop::ServerKeepAlive(*r.pick(&[0u16, 1, 65535])),
+                        _ => Prop::TopicAlias(1),
+                    });
+                }
+            }
+        }
+        PUBLISH => {
+            p.qos = *r.pick(&[0u8, 1, 2, 2, 3]);
+            p.dup = r.chance(1, 3);
+            p.retain = r.chance(1, 4);
+            p.id = Some(*r.pick(&ids));
+            p.topic = r.pick(&["", "t0", "a/#", "+", "t/1"]).to_string();
+            p.payload = b"adv".to_vec();
+            if v == 5 && r.chance(1, 2) {
+                p.props.push(Prop::TopicAlias(*r.pick(&[0u16, 1, 2, 65535])));
+                if r.chance(1, 6) {
+                    p.props.push(Prop::TopicAlias(1));
+                }
+            }
+            if v == 5 && r.chance(1, 8) {
+                p.props.push(Prop::ReceiveMax(1));
+            }
+        }
+        PUBACK | PUBREC | PUBREL | PUBCOMP => {
+            p.id = Some(*r.pick(&ids));
+            if v == 5 && r.chance(1, 2) {
+                p.rc = Some(*r.pick(&[0u8, 0x10, 0x80, 0x92, 0x97, 0xff]));
+                if r.chance(1, 4) {
+                    p.props.push(Prop::ReasonString("r".into()));
+                }
+            }
+            if r.chance(1, 10) {
+                p.flags = Some(*r.pick(&[0u8, 2, 0xf]));
+            }
+        }
+        SUBSCRIBE | UNSUBSCRIBE => {
+            p.id = Some(*r.pick(&ids));
+            p.filters = match r.below(4) {
+                0 => vec![],
+                1 => vec![("a".into(), 0)],
+                2 => vec![("a/#".into(), *r.pick(&[1u8, 2, 3, 0xff])), ("".into(), 0)],
+                _ => vec![("$share//x".into(), 0)],
+            };
+            if r.chance(1, 10) {
+                p.flags = Some(0);
+            }
+        }
+        SUBACK | UNSUBACK => {
+            let mut cand = ids.clone();
+            cand.extend(s.w.m.subs.iter().cloned());
+            cand.extend(s.w.m.unsubs.iter().cloned());
+            p.id = Some(*r.pick(&cand));
+            p.rcs = match r.below(4) {
+                0 => vec![],
+                1 => vec![0],
+                2 => vec![0x80, 0],
+                _ => vec![0xff],
+            };
+        }
+        PINGREQ | PINGRESP => {
+            if r.chance(1, 3) {
+                p.flags = Some(*r.pick(&[1u8, 0xf]));
+            }
+            if r.chance(1, 4) {
+                p.kind = kind;
+                let mut b = encode(&p, idw);
+                b[1] = 1;
+                b.push(0);
+                return b;
+            }
+        }
+        DISCONNECT => {
+            if v == 5 && r.chance(1, 2) {
+                p.rc = Some(*r.pick(&[0u8, 4, 0x81, 0x8d, 0xff]));
+            }
+        }
+        AUTH => {
+            if r.chance(1, 2) {
+                p.rc = Some(*r.pick(&[0u8, 0x18, 0x19, 0xff]));
+            }
+        }
+        _ => {
+            p.payload = vec![0, 1, 2];
+        }
+    }
+    let mut b = encode(&p, idw);
+    // byte-level mutation
+    if r.chance(1, 2) && !b.is_empty() {
+        match r.below(6) {
+            0 => {
+                let i = r.below(b.len() as u64) as usize;
+                b[i] ^= 1 << r.below(8);
+            }
+            1 => {
+                // truncate the body and fix the remaining length (1-byte RL only)
+                if b.len() > 2 && b[1] < 128 {
+                    let cut = r.range(1, (b.len() - 2).min(6) as u64) as usize;
+                    b.truncate(b.len() - cut);
+                    b[1] = (b.len() - 2) as u8;
+                }
+            }
+            2 => {
+                let i = r.range(2.min(b.len() as u64), b.len() as u64) as usize;
+                b.insert(i.min(b.len()), *r.pick(&[0u8, 0x80, 0xff]));
+                if b[1] < 127 {
+                    b[1] += 1;
+                }
+            }
+            3 => {
+                // non-minimal remaining length
+                if b.len() >= 2 && b[1] < 128 {
+                    let l = b[1];
+                    b[1] = l | 0x80;
+                    b.insert(2, 0);
+                }
+            }
+            4 => {
+                // over-long remaining length: 5 length bytes
+                let rest = b.split_off(1);
+                b.extend_from_slice(&[0x80, 0x80, 0x80, 0x80, 0x01]);
+                b.extend_from_slice(&rest);
+            }
+            _ => {
+                // remaining length larger than what follows: the rest of the stream is eaten
+                if b[1] < 100 {
+                    b[1] += r.range(1, 20) as u8;
+                }
+            }
+        }
+    }
+    b
 }
